@@ -718,7 +718,10 @@ func (x *Exec) builtin(st *State, fr *Frame, b *ssa.Builtin, cc *ssa.CallCommon,
 		t := cc.Args[0].Type()
 		a := st.scalar(args[0], t)
 		if _, ok := under(t).(*types.Slice); ok {
-			return slLen(a)
+			// the capacity is some number not below the length (make records the exact one)
+			c := UF(SI, "sl.cap", a)
+			st.assume(And(Ge(c, slLen(a)), Le(c, Term{"9223372036854775807", SI})))
+			return c
 		}
 		return Sel(st.comp("CH!cap", ArrSort(SI, SI)), a)
 	case "append":
